@@ -24,6 +24,10 @@ func init() {
 		NotDecided:  "order-independence over whole histories (7 is the structural necessary condition; the inductive argument is not made).",
 	}
 
+	reg("C03", "C03.10", "T1,T8,T5", "the inhibitor sees what the store holds: the provider hands every stored alert, in its stored (merged) version, to every subscriber", func(o *Ob) {
+		putFanoutRule(o)
+		o.MinSites(1)
+	})
 	reg("C03", "C03.1", "T2,T1", "the inhibitor stage is in every receiver pipeline before delivery; MuteStage passes an alert on iff not muted", func(o *Ob) {
 		outer, _ := pipelineOrder(o)
 		inh := indexOfPrefix(outer, "am/notify.NewMuteStage(p2,")
